@@ -5,7 +5,7 @@
    of the names of each sliver class, the size limits of the opaque data blobs and of the boot script.
    Definitions only. *)
 From Coq Require Import List ZArith NArith Bool String.
-From FIM Require Import Base.Str Base.Regex Model.Labels16Types Gen.LabelValidators Model.Labels16.
+From FIM Require Import Base.Str Base.Regex Model.Labels16Types Gen.UnicodeClasses Gen.LabelValidators Model.Labels16.
 Import ListNotations.
 
 Definition range_spec (rk : rangek) (s : str) : Prop :=
@@ -70,7 +70,10 @@ Definition caps_inv (st : cobj) : Prop := Forall (fun kv => cval_ok (snd kv)) st
 (* documented boundary values of the range predicates, as (field, value, accepted?) *)
 Definition boundary_table : list (str * str * bool) :=
   [ (S"vlan", S"0", true); (S"vlan", S"4096", true); (S"vlan", S"4097", false); (S"vlan", S"-1", false);
-    (S"vlan", S"12345", false); (S"vlan", S"", false);
+    (S"vlan", S"12345", false); (S"vlan", S"", false); (S"vlan", S"04096", false); (S"vlan", S"00000", false);
+    (S"vlan", S" 1", false); (S"vlan", S"1 ", false); (S"vlan", S"+1", false); (S"vlan", S"1_0", false);
+    (S"numa", S" 7", true); (S"numa", S"+7", true); (S"numa", S"0_7", true); (S"numa", S"_7", false); (S"numa", S"", false);
+    (S"numa", S"1.0", false);
     (S"inner_vlan", S"4096", true); (S"inner_vlan", S"4097", false);
     (S"asn", S"0", false); (S"asn", S"1", true); (S"asn", S"4294967295", true); (S"asn", S"4294967296", false);
     (S"numa", S"-1", true); (S"numa", S"0", true); (S"numa", S"7", true); (S"numa", S"8", false); (S"numa", S"-2", false);
@@ -90,3 +93,19 @@ Definition scalar_accepted (k s : str) : bool :=
   match snd (set_one false labels_init (k, LStr s)) with None => true | Some _ => false end.
 Definition list_accepted (k s : str) : bool :=
   match snd (set_one false labels_init (k, LList [s])) with None => true | Some _ => false end.
+
+(* ---- the integer literals int() accepts, declaratively ---- *)
+(* digits with single underscores between digits; yields the digit values, most significant first *)
+Inductive digit_groups : str -> list N -> Prop :=
+| DG_one c d : digit_val c = Some d -> digit_groups [c] [d]
+| DG_more c d s ds : digit_val c = Some d -> digit_groups s ds -> digit_groups (c :: s) (d :: ds)
+| DG_us c d s ds : digit_val c = Some d -> digit_groups s ds -> digit_groups (c :: 95%N :: s) (d :: ds).
+
+Definition int_literal (s : str) (z : Z) : Prop :=
+  exists ws1 sign body ws2 ds,
+    s = ws1 ++ sign ++ body ++ ws2 /\
+    forallb is_int_space ws1 = true /\ forallb is_int_space ws2 = true /\
+    (sign = [] \/ sign = [43%N] \/ sign = [45%N]) /\
+    digit_groups body ds /\
+    (int_max_str_digits = 0%N \/ (N.of_nat (List.length ds) <= int_max_str_digits)%N) /\
+    z = (if list_eqb N.eqb sign [45%N] then (- Z.of_N (dec_value ds))%Z else Z.of_N (dec_value ds)).
